@@ -1,4 +1,5 @@
 import XrsVerif.Proofs.Regions
+import XrsVerif.Proofs.ILRegionsProps
 import XrsVerif.Gen.RegionsFacts
 /-
   C16 -- regions labels are exactly the connected components of equal value.
@@ -21,6 +22,18 @@ import XrsVerif.Gen.RegionsFacts
   * `windows_from_source`, `closeness_from_source`, `meta_preserved`: the window offsets / clamping,
     the closeness test, and the wrapper's DataArray arguments regenerated from /repo's source are the
     ones the model uses.
+
+  * layer T3 (`generated_*`): the same clauses for the program `Gen.IL.areaConnectivity` that the translator
+    `harness/facts_il.py` regenerates statement by statement from `zonal._area_connectivity` on every run:
+    `generated_refines` (Proofs/ILRegions*.lean) proves, for every raster size, every data, `n = 4` and `n = 8`, that
+    the program ends with `return`, never leaves an array, and returns
+    `[data[c] if NaN else lab (label of c) for c in raster order]` with the labels of `regions … closeF (dataOf …)`,
+    `closeF` = the source's `|a - val| <= 1e-08 + 1e-05*|val|` read off the `Fl` operations.  Hypothesis:
+    `LabelLaws F` -- labels `1, 2, …` stored as numbers compare like naturals, NaN `==` nothing, a NaN window value is
+    never close (true for exact arithmetic with NaN: `labelLaws_NV`; IEEE doubles below 2^53).
+    `generated_sound`, `generated_components_iff` (symmetric `closeF`), `generated_value_path` (closeness = equality
+    on the raster's values; `closeF_int`: that is the case for integer values below 5·10⁴), `generated_labels_positive`,
+    `generated_nan`.
 
   Gap (stated, not hidden): the code's float `isclose` is neither symmetric nor transitive in general
   (reference = centre; +-inf centres match every finite neighbour).  `sound` does not need either;
@@ -152,6 +165,103 @@ theorem meta_preserved :
                          ("dims", "raster.dims"), ("name", "name")] := by
   decide
 
+/-! ### the generated program (layer T3) -/
+
+section generated
+open XrsVerif.IL XrsVerif.IL.Rg
+variable {F : Type} [Fl F]
+
+/-- the program generated from `_area_connectivity` ends with `return`, keeps `data`, and returns the raster of the
+    hand model: the input value at NaN cells, the number `lab k` of the model's label `k` elsewhere -/
+theorem generated_refines (laws : LabelLaws F) (s : State F) (fuel rows cols n : Nat) (hs : s.ctl = .run)
+    (hshp : s.shp "data" = [rows, cols]) (hnv : s.ienv "n" = (n : Int)) (hn : n = 4 ∨ n = 8) :
+    let r := Gen.IL.areaConnectivity.run s fuel
+    r.ctl = .ret ∧ r.shp "out" = [rows, cols] ∧ r.fa "data" = s.fa "data" ∧
+      r.fa "out" = (gridCells rows cols).map fun c =>
+        match regions rows cols (decide (n = 8)) closeF (dataOf cols (s.fa "data")) c with
+        | none => at_ cols (s.fa "data") c
+        | some k => lab k := by
+  intro r
+  obtain ⟨h1, h2, h3, h4⟩ := areaConnectivity_refines laws s fuel rows cols n hs hshp hnv hn
+  refine ⟨h1, h2, h3, ?_⟩
+  rw [h4]; rfl
+
+/-- generated program: two non-NaN cells that hold the same label are joined by a chain of adjacent matching cells -/
+theorem generated_sound (laws : LabelLaws F) (s : State F) (fuel rows cols n : Nat) (hs : s.ctl = .run)
+    (hshp : s.shp "data" = [rows, cols]) (hnv : s.ienv "n" = (n : Int)) (hn : n = 4 ∨ n = 8)
+    {p q : Cell} (hp : p ∈ gridCells rows cols) (hq : q ∈ gridCells rows cols)
+    (hpn : Fl.isnan (at_ cols (s.fa "data") p) = false) (hqn : Fl.isnan (at_ cols (s.fa "data") q) = false)
+    (h : at_ cols ((Gen.IL.areaConnectivity.run s fuel).fa "out") p =
+         at_ cols ((Gen.IL.areaConnectivity.run s fuel).fa "out") q) :
+    Connected rows cols (decide (n = 8)) closeF (dataOf cols (s.fa "data")) p q := by
+  obtain ⟨_, _, _, ho⟩ := areaConnectivity_refines laws s fuel rows cols n hs hshp hnv hn
+  rw [ho] at h
+  obtain ⟨hp1, hp2⟩ := mem_gridCells.mp hp
+  obtain ⟨hq1, hq2⟩ := mem_gridCells.mp hq
+  have := (out_eq_iff laws rows cols n (s.fa "data") p q hp1 hp2 hq1 hq2 hpn hqn).mp h
+  exact sound hp (by rw [Ne, nan_iff, dataOf_some _ _ _ hpn]; simp) this
+
+/-- generated program, symmetric closeness: same label <-> joined by a chain of adjacent matching cells -/
+theorem generated_components_iff (laws : LabelLaws F) (hsym : ∀ a b : F, closeF a b = closeF b a)
+    (s : State F) (fuel rows cols n : Nat) (hs : s.ctl = .run)
+    (hshp : s.shp "data" = [rows, cols]) (hnv : s.ienv "n" = (n : Int)) (hn : n = 4 ∨ n = 8)
+    {p q : Cell} (hp : p ∈ gridCells rows cols) (hq : q ∈ gridCells rows cols)
+    (hpn : Fl.isnan (at_ cols (s.fa "data") p) = false) (hqn : Fl.isnan (at_ cols (s.fa "data") q) = false) :
+    at_ cols ((Gen.IL.areaConnectivity.run s fuel).fa "out") p =
+        at_ cols ((Gen.IL.areaConnectivity.run s fuel).fa "out") q ↔
+      Connected rows cols (decide (n = 8)) closeF (dataOf cols (s.fa "data")) p q := by
+  obtain ⟨_, _, _, ho⟩ := areaConnectivity_refines laws s fuel rows cols n hs hshp hnv hn
+  obtain ⟨hp1, hp2⟩ := mem_gridCells.mp hp
+  obtain ⟨hq1, hq2⟩ := mem_gridCells.mp hq
+  rw [ho, out_eq_iff laws rows cols n (s.fa "data") p q hp1 hp2 hq1 hq2 hpn hqn]
+  exact components_iff hsym hp (by rw [dataOf_some _ _ _ hpn]; simp)
+
+/-- generated program, closeness = equality on the values of the raster (integer-valued rasters): two cells get the
+    same label exactly when a path of 4- (8-) adjacent raster cells that all hold the same value joins them -/
+theorem generated_value_path [DecidableEq F] (laws : LabelLaws F) (s : State F) (fuel rows cols n : Nat)
+    (hs : s.ctl = .run) (hshp : s.shp "data" = [rows, cols]) (hnv : s.ienv "n" = (n : Int)) (hn : n = 4 ∨ n = 8)
+    (heqv : ∀ p q v w, p ∈ gridCells rows cols → q ∈ gridCells rows cols →
+      dataOf cols (s.fa "data") p = some v → dataOf cols (s.fa "data") q = some w → closeF v w = decide (v = w))
+    {p q : Cell} {v : F} (hp : p ∈ gridCells rows cols) (hq : q ∈ gridCells rows cols)
+    (hv : dataOf cols (s.fa "data") p = some v) (hqn : Fl.isnan (at_ cols (s.fa "data") q) = false) :
+    at_ cols ((Gen.IL.areaConnectivity.run s fuel).fa "out") p =
+        at_ cols ((Gen.IL.areaConnectivity.run s fuel).fa "out") q ↔
+      ValuePath rows cols (decide (n = 8)) (dataOf cols (s.fa "data")) v p q := by
+  obtain ⟨_, _, _, ho⟩ := areaConnectivity_refines laws s fuel rows cols n hs hshp hnv hn
+  obtain ⟨hp1, hp2⟩ := mem_gridCells.mp hp
+  obtain ⟨hq1, hq2⟩ := mem_gridCells.mp hq
+  have hpn : Fl.isnan (at_ cols (s.fa "data") p) = false := by
+    cases h : Fl.isnan (at_ cols (s.fa "data") p) with
+    | false => rfl
+    | true => rw [dataOf_none _ _ _ h] at hv; cases hv
+  rw [ho, out_eq_iff laws rows cols n (s.fa "data") p q hp1 hp2 hq1 hq2 hpn hqn,
+    regions_congr rows cols (decide (n = 8)) closeF (fun a b => decide (a = b)) _ heqv p,
+    regions_congr rows cols (decide (n = 8)) closeF (fun a b => decide (a = b)) _ heqv q]
+  exact regions_iff_value_path hp hv
+
+/-- generated program: a non-NaN cell holds a positive label -/
+theorem generated_labels_positive (laws : LabelLaws F) (s : State F) (fuel rows cols n : Nat) (hs : s.ctl = .run)
+    (hshp : s.shp "data" = [rows, cols]) (hnv : s.ienv "n" = (n : Int)) (hn : n = 4 ∨ n = 8)
+    {p : Cell} (hp : p ∈ gridCells rows cols) (hpn : Fl.isnan (at_ cols (s.fa "data") p) = false) :
+    ∃ k : Nat, 0 < k ∧ at_ cols ((Gen.IL.areaConnectivity.run s fuel).fa "out") p = lab k := by
+  obtain ⟨_, _, _, ho⟩ := areaConnectivity_refines laws s fuel rows cols n hs hshp hnv hn
+  obtain ⟨hp1, hp2⟩ := mem_gridCells.mp hp
+  obtain ⟨k, hk⟩ := regions_some_of rows cols (decide (n = 8)) (s.fa "data") p hpn
+  refine ⟨k, labels_positive hp hk, ?_⟩
+  rw [ho, at_modelOut rows cols n _ p hp1 hp2, cellOut_some _ _ _ _ _ _ hk]
+
+/-- generated program: a NaN cell keeps its (NaN) input value -/
+theorem generated_nan (laws : LabelLaws F) (s : State F) (fuel rows cols n : Nat) (hs : s.ctl = .run)
+    (hshp : s.shp "data" = [rows, cols]) (hnv : s.ienv "n" = (n : Int)) (hn : n = 4 ∨ n = 8)
+    {p : Cell} (hp : p ∈ gridCells rows cols) (hpn : Fl.isnan (at_ cols (s.fa "data") p) = true) :
+    at_ cols ((Gen.IL.areaConnectivity.run s fuel).fa "out") p = at_ cols (s.fa "data") p := by
+  obtain ⟨_, _, _, ho⟩ := areaConnectivity_refines laws s fuel rows cols n hs hshp hnv hn
+  obtain ⟨hp1, hp2⟩ := mem_gridCells.mp hp
+  rw [ho, at_modelOut rows cols n _ p hp1 hp2, cellOut_none]
+  simp only [regions, result, dataOf_none _ _ _ hpn]
+
+end generated
+
 /-! ### non-vacuity -/
 
 /-- a U-shaped component: pass 1 gives its two arms different labels, pass 2 merges them -/
@@ -185,5 +295,37 @@ example : regions 2 2 true (fun a b : Int => decide (a = b)) dData (0, 0)
       ≠ regions 2 2 false (fun a b : Int => decide (a = b)) dData (1, 1)
     ∧ regions 2 2 true (fun a b : Int => decide (a = b)) dData (0, 1) = none := by
   decide
+
+/-! non-vacuity of the `generated_*` theorems: exact arithmetic with NaN over ℚ satisfies `LabelLaws`; a start
+    state holding the U-shaped 2×3 raster (with one NaN) satisfies the hypotheses; on it closeness is equality -/
+
+section generatedExamples
+open XrsVerif.IL XrsVerif.IL.Rg
+
+local instance : Trig ℚ := ⟨id, id, fun a _ => a, id, id, id, id⟩
+
+example : LabelLaws (NV ℚ) := labelLaws_NV
+
+/-- `data = [[1, 0, 1], [1, NaN, 1]]`, `n = 4` -/
+def uState : State (NV ℚ) :=
+  { (State.empty : State (NV ℚ)) with
+    ienv := fun v => if v = "n" then 4 else 0
+    shp := fun a => if a = "data" then [2, 3] else []
+    fa := fun a => if a = "data" then [some 1, some 0, some 1, some 1, none, some 1] else [] }
+
+example : uState.ctl = .run ∧ uState.shp "data" = [2, 3] ∧ uState.ienv "n" = ((4 : Nat) : Int) ∧
+    ((4 : Nat) = 4 ∨ (4 : Nat) = 8) := by
+  refine ⟨rfl, rfl, rfl, Or.inl rfl⟩
+
+/-- the cells `(0, 0)` and `(1, 0)` of that raster are non-NaN raster cells, `(1, 1)` is a NaN cell -/
+example : Fl.isnan (at_ 3 (uState.fa "data") (0, 0)) = false ∧ Fl.isnan (at_ 3 (uState.fa "data") (1, 0)) = false ∧
+    Fl.isnan (at_ 3 (uState.fa "data") (1, 1)) = true ∧ ((0, 0) : Cell) ∈ gridCells 2 3 := by
+  refine ⟨rfl, rfl, rfl, by decide⟩
+
+/-- integer values below 5·10⁴: the closeness hypothesis of `generated_value_path` holds (`closeF_int`) -/
+example (a b : Int) (ha : |a| < 50000) : closeF (some (a : ℚ) : NV ℚ) (some (b : ℚ)) = decide (a = b) :=
+  closeF_int a b ha
+
+end generatedExamples
 
 end XrsVerif.C16
